@@ -2,7 +2,7 @@
    (Go data / Lisp objects / bag data); guards: Spec.v, SpecPath.v; proofs: ProofsLex, ProofsText, ProofsPath,
    ProofsBridge, ProofsWalk, ProofsPattern. *)
 From Coq Require Import List ZArith NArith Bool Strings.Byte String.
-From C18 Require Import Tables Model Spec ModelPath ModelBridge SpecPath ProofsLex ProofsText ProofsPath ProofsBridge ProofsWalk ProofsPattern.
+From C18 Require Import Tables Model Spec ModelPath ModelBridge SpecPath ProofsLex ProofsText ProofsPath ProofsBridge ProofsWalk ProofsPattern ModelStore SpecStore ProofsStore.
 Import ListNotations.
 
 (* ---- (1) text ------------------------------------------------------------------------------------
@@ -226,6 +226,40 @@ Theorem C18_remove_pattern_then_has : forall sx last v v', no_desc sx = true -> 
   bag_remove (sx ++ [last]) v = Some v' -> mhas (sx ++ [last]) v' = false /\ get_all (sx ++ [last]) v' = [].
 Proof. exact remove_pattern_has. Qed.
 Print Assumptions C18_remove_pattern_then_has.
+
+(* ---- (2c) histories over several bags ---------------------------------------------------------------
+   A history of bag-parse / bag-set calls (function or method, with or without a path) on several bags that are
+   all still held: ModelStore.v (state = the contents of every bag).  One call leaves every bag it is not
+   addressed to as it was; *)
+Theorem C18_store_others : forall o st j, j <> starget o -> nth_error (fst (sstep o st)) j = nth_error st j.
+Proof. exact store_others. Qed.
+Print Assumptions C18_store_others.
+(* over a history of ANY length, what bag j holds at the end is what the calls addressed to j - and only they,
+   in their order - make of what it held at the start: bags are values, nothing parsed or set later into another
+   bag (or elsewhere) reaches back into it; *)
+Theorem C18_store_independent : forall ops st j, nth_error (srun ops st) j = option_map (brun j ops) (nth_error st j).
+Proof. exact store_independent. Qed.
+Print Assumptions C18_store_independent.
+(* so a bag filled from the written text of v (inside the text guard) still holds v after any further calls on
+   other bags: it keeps writing the text it was filled from; *)
+Theorem C18_store_text_survives : forall f sty v i ops st,
+  text_ok false f v = true -> top_ok f v = true -> i < List.length st -> (forall o, In o ops -> starget o <> i) ->
+  nth_error (srun (SParse i (write f sty v) None :: ops) st) i = Some v.
+Proof. exact store_text_survives. Qed.
+Print Assumptions C18_store_text_survives.
+(* inside the bag a call is addressed to, parsing or setting at a concrete path p leaves every concrete path that
+   parts ways with p as it was (text parsed or not, set succeeded or not), *)
+Theorem C18_store_path_frame : forall o st b p q, nth_error st (starget o) = Some b -> spath o = Some p ->
+  concrete p = true -> concrete q = true -> p <> [] -> disjoint p q b = true ->
+  exists b', nth_error (fst (sstep o st)) (starget o) = Some b' /\ cget q b' = cget q b.
+Proof. exact store_path_frame. Qed.
+Print Assumptions C18_store_path_frame.
+(* and a get of p returns what the text parsed to (bag-parse) / the value converted to (bag-set). *)
+Theorem C18_store_path_get : forall o st b p x, nth_error st (starget o) = Some b -> spath o = Some p -> svalue o = Some x ->
+  concrete p = true -> p <> [] -> fits p b = true -> snd (sstep o st) = false ->
+  exists b', nth_error (fst (sstep o st)) (starget o) = Some b' /\ cget p b' = Some x.
+Proof. exact store_path_get. Qed.
+Print Assumptions C18_store_path_get.
 
 (* ---- (3) conversions -----------------------------------------------------------------------------
    A bag converted to native Lisp data (bag-native) and back (make-bag / bag-set) is the same bag, inside the
